@@ -15,7 +15,7 @@ RULE = {"C09": "generated owner classes with 1-6 tunables (defaults of every sup
                ">=2 tunables and >=1 NetworkTables-side write observed from python and >=1 python write observed from "
                "NetworkTables; distinct = hash of (definition, history)."}
 RULE["C09"] += '  Also: owners that are StateMachines or falsy objects, hints on a base class, inherited and redefined tunables, nearly-equal pre-existing struct values (compared by field), a second object bound under a used name.'
-REQUIRED = {"C09": {"tunables-on-a-base-robot-class": 10, "new-object-bound-under-a-new-name": 50, "new-object-at-the-address-of-the-collected-one": 5, "pre-existing-value-published-with-setDefault": 20, "falsy-owner": 100, "type-hint-on-base-class": 20, "writeDefault-true-overwrites-nearly-equal-struct": 10, "type:boolean": 50, "type:int": 50, "type:double": 50, "type:string": 50, "type:raw": 20, "type:struct:Rotation2d": 20,
+REQUIRED = {"C09": {"instances-that-compare-equal": 100, "spelling:name-colon-tunable-of-T": 50, "tunables-on-a-base-robot-class": 10, "new-object-bound-under-a-new-name": 50, "new-object-at-the-address-of-the-collected-one": 5, "pre-existing-value-published-with-setDefault": 20, "falsy-owner": 100, "type-hint-on-base-class": 20, "writeDefault-true-overwrites-nearly-equal-struct": 10, "type:boolean": 50, "type:int": 50, "type:double": 50, "type:string": 50, "type:raw": 20, "type:struct:Rotation2d": 20,
                     "type:boolean[]": 20, "type:int[]": 20, "type:double[]": 20, "type:string[]": 20, "type:struct:Rotation2d[]": 10,
                     "empty-hinted": 30, "writeDefault-true-overwrites": 50, "writeDefault-false-preserves": 50, "writeDefault-false-preserves-falsy": 10, "subtable": 100, "redefines-inherited-tunable": 30, "base-class-instance-bound-first": 30, "statemachine-owner": 50, "negative-duration-value": 30,
                     "rebound-under-used-name": 50,
@@ -111,7 +111,7 @@ def gen_case(rng, uid):
     for j in range(nt):
         kind = rng.choice(KINDS)
         t = {"attr": f"t{j}{uid}", "kind": kind, "writeDefault": rng.random() < 0.6, "subtable": rng.choice([None, None, "sub", "a/b"]),
-             "as_tuple": rng.random() < 0.3, "spelling": rng.randrange(3), "preexisting": rng.random() < 0.4, "pre_falsy": rng.random() < 0.4,
+             "as_tuple": rng.random() < 0.3, "spelling": rng.randrange(4), "preexisting": rng.random() < 0.4, "pre_falsy": rng.random() < 0.4,
              "overrides_inherited": rng.random() < 0.15, "pre_near": rng.random() < 0.5, "hint_on_base": rng.random() < 0.3,
              "pre_via_setDefault": rng.random() < 0.3}
         tun.append(t)
@@ -145,7 +145,7 @@ def gen_case(rng, uid):
         if rng.random() < 0.2:
             ops.append(["adv", rng.choice([0, 1, 20000])])
     case = {"uid": uid, "owner": owner, "tunables": tun, "instances": instances, "ops": ops, "base_instance_first": rng.random() < 0.3,
-            "truth": rng.choice([None, None, None, None, None, "len0", "boolFalse"]), "derived_robot": derived_robot}
+            "truth": rng.choice([None, None, None, None, None, "len0", "boolFalse"]), "derived_robot": derived_robot, "eq_all": rng.random() < 0.2}
     if owner in ("direct", "component", "component2") and rng.random() < 0.3:
         # the owner is a magicbot.StateMachine: its timed state's duration is a tunable like any other
         # (/components/N/state/<state>_duration), including values a dashboard user may type that make no sense (negative)
@@ -203,6 +203,10 @@ def build_class(case, base=None):
         lines.append("    def __len__(self):\n        return 0")
     elif case.get("truth") == "boolFalse":
         lines.append("    def __bool__(self):\n        return False")
+    if case.get("eq_all"):
+        # value semantics: every instance of the class compares and hashes equal (a dataclass-like component with equal fields)
+        lines.append("    def __eq__(self, o):\n        return type(o) is type(self)")
+        lines.append("    def __hash__(self):\n        return 11")
     for t in case["tunables"]:
         kw = f"writeDefault={t['writeDefault']!r}"
         if t["subtable"]:
@@ -217,6 +221,8 @@ def build_class(case, base=None):
                 lines.append(f"    {a} = tunable[{hint}](d_{a}, {kw})")
             elif t["spelling"] == 1:
                 lines.append(f"    {a}: ClassVar[tunable[{hint}]] = tunable(d_{a}, {kw})")
+            elif t["spelling"] == 3:
+                lines.append(f"    {a}: tunable[{hint}] = tunable(d_{a}, {kw})")        # the plain `name: tunable[T] = tunable(...)` spelling
             elif t in hb:
                 lines.append(f"    {a} = tunable(d_{a}, {kw})")
             else:
@@ -228,6 +234,8 @@ def build_class(case, base=None):
                 lines.append(f"    {a} = tunable[Sequence[{et}]]({empty}, {kw})")
             elif t["spelling"] == 1:
                 lines.append(f"    {a}: ClassVar[tunable[list[{et}]]] = tunable({empty}, {kw})")
+            elif t["spelling"] == 3:
+                lines.append(f"    {a}: tunable[Sequence[{et}]] = tunable({empty}, {kw})")
             elif t in hb:
                 lines.append(f"    {a} = tunable({empty}, {kw})")
             else:
@@ -407,6 +415,10 @@ def _run_case(acc, case):
                     acc.ev("type-hint-on-base-class")
                 if case.get("truth"):
                     acc.ev("falsy-owner")
+                if case.get("eq_all") and len(case["instances"]) >= 2:
+                    acc.ev("instances-that-compare-equal")
+                if t["spelling"] == 3 and t["kind"].startswith(("hintfloat", "empty:")):
+                    acc.ev("spelling:name-colon-tunable-of-T")
                 if t.get("overrides_inherited") and not t["kind"].startswith("empty:"):
                     acc.ev("redefines-inherited-tunable")
                 path = topic_path(inst, t)
